@@ -41,8 +41,10 @@ ASSUMPTIONS = [
     "the configurations considered)",
     "a file's stamp (what version_for_file_path / getmtime observe) changes whenever its content changes: hypothesis "
     "`OpsFresh` of history_transparent; the harness enforces it with os.utime and strictly increasing whole seconds",
-    "templates are the abstract syntax text / {{ var }} / include / import-as-module / python[key]; the adapter prints it "
-    "as Jinja source, so Jinja's compiler is exercised but not modelled",
+    "templates are the abstract syntax text / {{ var }} / include / import-as-module / python[key] / import_json and "
+    "import_yaml of a data file (vinegar's serialisation extension; for the model an import whose value is the file's text: "
+    "the adapter writes the text as one JSON string and the extension parses it back); the adapter prints it as Jinja "
+    "source, so Jinja's compiler is exercised but not modelled",
     "the model evaluates an imported template on every import; Jinja2 memoises an imported template's module per "
     "compiled template (Template._get_default_module). Where that makes an edit of a file reached THROUGH an import "
     "invisible the check reports it (recorded finding `import memo`, KNOWN_FINDINGS.txt)",
